@@ -2,7 +2,7 @@
    (Laplace expansion over the Gaussian integers); multiplicativity, identity and
    row-swap sign for the symbolic 2x2 case, identity for 3x3. *)
 From Coq Require Import NArith ZArith List Bool Arith Lia.
-From FQE Require Import GaussZ Ext.
+From FQE Require Import GaussZ Ext ExtThm.
 Import ListNotations.
 
 Theorem C12_det2_mul_partial : forall a b c d e f g h,
@@ -17,3 +17,26 @@ Print Assumptions C12_det2_swap_rows.
 Theorem C12_det_identity_3 : det 3 [[gz1; gz0; gz0]; [gz0; gz1; gz0]; [gz0; gz0; gz1]] = gz1.
 Proof. exact det_identity_3. Qed.
 Print Assumptions C12_det_identity_3.
+
+(* ---- general size (ExtThm.v): a zero row kills the determinant; for a DIAGONAL orbital matrix
+   (what the evolution routes use after rotating to the eigenbasis) the exterior power is diagonal:
+   the minor on equal index lists is the product of the diagonal entries, every other minor vanishes;
+   for the identity matrix the many-body action is the identity. Every size, every index list. *)
+Theorem C12_det_zero_row : forall f (M : mat) i, length M = f -> i < f -> zero_row (nth i M []) -> det f M = gz0.
+Proof. exact det_zero_row. Qed.
+Print Assumptions C12_det_zero_row.
+
+Theorem C12_minor_diag_same : forall (M : mat), (forall i j, i <> j -> mget M i j = gz0) ->
+  forall I, NoDup I -> minor M I I = gzprod (map (fun i => mget M i i) I).
+Proof. exact minor_diag_same. Qed.
+Print Assumptions C12_minor_diag_same.
+
+Theorem C12_minor_diag_diff : forall (M : mat), (forall i j, i <> j -> mget M i j = gz0) ->
+  forall I J a, length I = length J -> In a I -> ~ In a J -> minor M I J = gz0.
+Proof. exact minor_diag_diff. Qed.
+Print Assumptions C12_minor_diag_diff.
+
+Theorem C12_identity_acts_as_identity : forall M I, (forall i j, i <> j -> mget M i j = gz0) ->
+  (forall i, In i I -> mget M i i = gz1) -> NoDup I -> minor M I I = gz1.
+Proof. exact minor_identity_same. Qed.
+Print Assumptions C12_identity_acts_as_identity.
